@@ -107,6 +107,44 @@ fn judge_sample<F: Fl>(xs: &[f64], confs: &[(Kind, f64)], styles: &[Style], s: &
     }
 }
 
+// ---------------- D1e: magnitudes next to the top of the float type -------------------
+//
+// n observations c_i * 2^e with c_i in {1, 1.25, 1.5} and e as large as possible with
+// sum x^2 <= MAX/sqrt(2): every quantity the interval needs (mean, sum of squares, variance,
+// bounds) is representable, but (sum x)^2 is not for same-sign data. An Ok answer is judged
+// like any other; an Err is accepted here (an implementation may report that an intermediate
+// overflowed) and counted as skipped - what is not accepted is a silently wrong interval.
+const EDGE_PATTERNS: [&[f64]; 3] = [&[1.0, 1.5, 1.25, 1.0], &[1.5, -1.0, 1.25], &[-1.0, -1.5, -1.25, -1.0, -1.5]];
+
+fn edge_exponent<F: Fl>(n: usize) -> i32 {
+    let emax = if F::NAME == "f32" { 128.0 } else { 1024.0 };
+    ((emax - 0.5 - (2.25 * n as f64).log2()) / 2.0).floor() as i32
+}
+
+fn judge_edge<F: Fl>(pi: usize, n: usize, confs: &[(Kind, f64)], s: &mut Sink) {
+    let k = 2f64.powi(edge_exponent::<F>(n));
+    let pat = EDGE_PATTERNS[pi];
+    let xs: Vec<f64> = (0..n).map(|i| pat[i % pat.len()] * k).collect();
+    let (data, exact_xs) = as_f::<F>(&xs);
+    let ex = exact_stats(&exact_xs);
+    let e = expect_for::<F>(&ex);
+    for &(kind, level) in confs {
+        let c = conf(kind, level);
+        for &st in STYLES_QUICK.iter() {
+            s.evals += 1;
+            s.calls += 1;
+            let case = || json!({"check":"D1e","type":F::NAME,"pattern":pi,"n":n,"kind":kind,"level":level,"style":st});
+            match run_style::<F>(st, c, &data) {
+                Err(_) => s.skipped += 1,
+                Ok(iv) => {
+                    s.outcome(&("D1e", F::NAME, kind, pi));
+                    judge_interval("D1e", kind, level, shape(&iv), &e, &case, &|| format!("{st:?}({c:?}, {n} observations {pat:?} x 2^{} as {})", edge_exponent::<F>(n), F::NAME), s);
+                }
+            }
+        }
+    }
+}
+
 // ---------------- D2: streaming ------------------------------------------------------
 
 const PATTERNS: [&[f64]; 6] = [&[1.0, -1.0], &[1.0, 2.0, 3.0], &[-5.0, -5.0, -2.0], &[0.1, 0.3], &[1_000_001.0, 999_999.0], &[-1000.0, -1001.0, -999.5]];
@@ -229,6 +267,7 @@ enum Job {
     /// a dyadic sequence multiplied by 2^e (exact): small / large magnitudes
     Scaled { len: usize, idx: u64, e: i32, f32_: bool },
     Seq { dyadic: bool, len: usize, idx: u64, f32_: bool },
+    Edge { pattern: usize, n: usize, f32_: bool },
     Stream { f32_: bool, pts: Vec<usize> },
 }
 
@@ -260,6 +299,11 @@ fn run(tier: Tier) -> Sink {
                 }
             }
         }
+        for pattern in 0..EDGE_PATTERNS.len() {
+            for n in [16usize, 100, 1000] {
+                jobs.push(Job::Edge { pattern, n, f32_ });
+            }
+        }
         for pattern in 0..PATTERNS.len() {
             for n in [1_000usize, 30_000, 250_000] {
                 jobs.push(Job::Long { pattern, n, f32_ });
@@ -279,6 +323,13 @@ fn run(tier: Tier) -> Sink {
                 judge_long_vector::<f32>(*pattern, *n, &long_confs, s)
             } else {
                 judge_long_vector::<f64>(*pattern, *n, &long_confs, s)
+            }
+        }
+        Job::Edge { pattern, n, f32_ } => {
+            if *f32_ {
+                judge_edge::<f32>(*pattern, *n, &confs, s)
+            } else {
+                judge_edge::<f64>(*pattern, *n, &confs, s)
             }
         }
         Job::Scaled { len, idx, e, f32_ } => {
@@ -327,6 +378,15 @@ fn replay_case(case: &Value, s: &mut Sink) {
             judge_long_vector::<f32>(pi, n, &[(kind, level)], s)
         } else {
             judge_long_vector::<f64>(pi, n, &[(kind, level)], s)
+        }
+        return;
+    }
+    if case["check"] == "D1e" {
+        let (pi, n) = (case["pattern"].as_u64().unwrap() as usize, case["n"].as_u64().unwrap() as usize);
+        if f32_ {
+            judge_edge::<f32>(pi, n, &[(kind, level)], s)
+        } else {
+            judge_edge::<f64>(pi, n, &[(kind, level)], s)
         }
         return;
     }
